@@ -393,4 +393,360 @@ Section NbxSched.
     - exfalso. destruct (NK_ret r (rev acc)) as [o Ho]. inversion Hs; subst; match goal with E : ppr s r = _ |- _ => prog_shape I Est E; rewrite Ho in E; discriminate end.
     - exfalso. inversion Hs; subst; match goal with E : ppr s r = _ |- _ => prog_shape I Est E; discriminate end.
   Qed.
+  Lemma NInv_run : forall n s0 s st, NInv s0 st -> run_p P nbx_poll nbx_stags n s0 s -> exists st', NInv s st'.
+  Proof.
+    induction n as [|n IH]; intros s0 s st I Hr; inversion Hr as [|? ? r s1 ? Hs Hrest]; subst; [eauto|].
+    destruct (NInv_step s0 st r s1 I Hs) as [st1 I1]. exact (IH s1 s st1 I1 Hrest).
+  Qed.
+
+  (* SAFETY: the invariant holds in every reachable state *)
+  Theorem nbx_safety n s : run_p P nbx_poll nbx_stags n nbx_sys s -> exists st, NInv s st.
+  Proof. exact (NInv_run n nbx_sys s st0 NInv_init). Qed.
+
+  Lemma sentb_In st r d : sentb st r d = true -> st <> ROut /\ In d (R r).
+  Proof.
+    destruct st as [j|f b a p|a|]; cbn [sentb]; intros H; try discriminate; (split; [discriminate|]); apply memz_In in H; [|exact H|exact H].
+    rewrite <- (firstn_skipn j (R r)). apply in_app_iff. left. exact H.
+  Qed.
+
+  (* what a returned rank has returned *)
+  Lemma done_result s st r acc : NInv s st -> 0 <= r < P -> st r = RDone acc ->
+    exists o, Permutation o (transpose P R r) /\ (sorted = true -> o = transpose P R r) /\
+              ppr s r = Ret (result o (if hp then map (fun q => pay q r) o else [])).
+  Proof.
+    intros I Hr Est. pose proof (n_prog s st I r) as Hp. rewrite Est in Hp. cbn [prog_of] in Hp.
+    destruct (n_acc s st I r) as [Hnd Hacc]. rewrite Est in Hnd, Hacc. cbn [acc_of] in Hnd, Hacc.
+    set (arr := map fst (rev acc)).
+    assert (Hperm : Permutation arr (transpose P R r)).
+    { apply NoDup_Permutation.
+      - unfold arr. rewrite map_rev. apply NoDup_rev. exact Hnd.
+      - apply transpose_NoDup.
+      - intros a. unfold arr. rewrite map_rev, <- in_rev. split.
+        + intros Ha. apply in_map_iff in Ha. destruct Ha as [[a' m] [E Hin]]. cbn [fst] in E. subst a'.
+          destruct (Hacc a m Hin) as [Hs _]. apply sentb_In in Hs. destruct Hs as [Hno Hin'].
+          apply transpose_In. split; [apply (in_range_of s st a I Hno)|exact Hin'].
+        + intros Ha. apply (n_done s st I r acc Est a Ha). }
+    assert (Hgot : rev acc = map (fun a => (a, nitem a r)) arr).
+    { unfold arr. rewrite map_map. rewrite <- (map_id (rev acc)) at 1. apply map_ext_in. intros [a m] Hin. apply in_rev in Hin.
+      destruct (Hacc a m Hin) as [_ ->]. reflexivity. }
+    set (final := if sorted then transpose P R r else arr).
+    assert (Hsorted : (if sorted then sort_by_src (rev acc) else rev acc) = map (fun a => (a, nitem a r)) final).
+    { unfold final. rewrite Hgot. destruct sorted; [|reflexivity]. apply (sort_arrivals (fun a => nitem a r)); [apply transpose_ssorted|exact Hperm]. }
+    exists final. split; [unfold final; destruct sorted; [apply Permutation_refl|exact Hperm]|]. split; [intros ->; reflexivity|].
+    rewrite Hp. unfold NK. rewrite Hsorted. rewrite !map_map. cbn [fst snd]. rewrite map_id. unfold nep, nitem. destruct hp; reflexivity.
+  Qed.
+
+  (* FINAL STATES: the transposed lists (a permutation if unsorted), every channel empty, every barrier posted *)
+  Theorem nbx_final n s : run_p P nbx_poll nbx_stags n nbx_sys s -> pfinal s ->
+    (forall r, 0 <= r < P -> exists o, Permutation o (transpose P R r) /\ (sorted = true -> o = transpose P R r) /\
+                                      ppr s r = Ret (result o (if hp then map (fun q => pay q r) o else []))) /\
+    (forall a b t, pch s a b t = []) /\ (forall r, 0 <= r < P -> pbar s r = true).
+  Proof.
+    intros Hr Hf. destruct (nbx_safety n s Hr) as [st I].
+    assert (Hdone : forall r, 0 <= r < P -> exists acc, st r = RDone acc).
+    { intros r Hrr. destruct (Hf r) as [o Ho]. pose proof (n_prog s st I r) as Hp. rewrite Ho in Hp.
+      destruct (st r) as [j|f barr acc p|acc|] eqn:Est.
+      - exfalso. pose proof (n_send s st I r j Est) as Hj. cbn [prog_of] in Hp.
+        rewrite (skipn_nth (0, tag, nitem r 0)) in Hp by (unfold msgs; rewrite map_length; exact Hj).
+        destruct (nth j (msgs r) (0, tag, nitem r 0)) as [[d t] m]. cbn [do_sends] in Hp. unfold send in Hp. discriminate.
+      - exfalso. destruct p; [rewrite prog_poll in Hp; destruct f; cbn [nbx_loop] in Hp; discriminate|destruct barr; cbn [prog_of] in Hp; discriminate|rewrite prog_ibar in Hp; discriminate].
+      - eauto.
+      - exfalso. apply (proj1 (n_out s st I r) Est). exact Hrr. }
+    split; [|split].
+    - intros r Hrr. destruct (Hdone r Hrr) as [acc Est]. exact (done_result s st r acc I Hrr Est).
+    - intros a b t. rewrite (n_ch s st I a b t). destruct (t =? tag); [|reflexivity]. cbn [andb].
+      destruct (sentb (st a) a b) eqn:Hs; [|reflexivity]. cbn [andb]. apply sentb_In in Hs. destruct Hs as [Hno Hin].
+      destruct (Hdone a (in_range_of s st a I Hno)) as [acc Est].
+      rewrite (n_cmp s st I a ltac:(rewrite Est; reflexivity) b Hin). reflexivity.
+    - intros r Hrr. destruct (Hdone r Hrr) as [acc Est]. rewrite (n_bar s st I r), Est. reflexivity.
+  Qed.
+
+  (* NO RANK IS EVER BLOCKED: in every reachable state every rank of the communicator has returned, or stands at the model's fuel
+     mark (loop bound exhausted), or can make a step *)
+  Definition at_fuel_mark (s : pst) (r : Z) : Prop := exists k, ppr s r = Do (Coll K_FUEL (-1) []) k.
+
+  Theorem nbx_never_blocked n s : run_p P nbx_poll nbx_stags n nbx_sys s ->
+    forall r, 0 <= r < P -> (exists o, ppr s r = Ret o) \/ at_fuel_mark s r \/ exists s', step_p P nbx_poll nbx_stags s r s'.
+  Proof.
+    intros Hr r Hrr. destruct (nbx_safety n s Hr) as [st I]. pose proof (n_prog s st I r) as Hp.
+    destruct (st r) as [j|f barr acc p|acc|] eqn:Est.
+    - right. right. pose proof (n_send s st I r j Est) as Hj. cbn [prog_of] in Hp.
+      rewrite (skipn_nth (0, tag, nitem r 0)) in Hp by (unfold msgs; rewrite map_length; exact Hj).
+      destruct (nth j (msgs r) (0, tag, nitem r 0)) as [[d t] m]. cbn [do_sends] in Hp. unfold send in Hp. eexists. eapply stepp_send. exact Hp.
+    - destruct p.
+      + rewrite prog_poll in Hp. destruct f as [|f]; [right; left; cbn [nbx_loop] in Hp; eexists; exact Hp|]. right. right. rewrite nbx_loop_S in Hp.
+        destruct (nothing P (pch s) r tag) eqn:En; [eexists; eapply stepp_miss; [exact Hp|apply nbx_poll_tag|exact En]|].
+        assert (Hex : exists src m q, pch s src r tag = m :: q).
+        { unfold nothing in En. destruct (forallb_forall (fun src => isnil (pch s src r tag)) (pranks P)) as [_ Hall].
+          destruct (existsb (fun src => negb (isnil (pch s src r tag))) (pranks P)) eqn:Ee.
+          - apply existsb_exists in Ee. destruct Ee as [src [_ Hs]]. destruct (pch s src r tag) as [|m q] eqn:Ec; [discriminate|exists src, m, q; exact Ec].
+          - exfalso. rewrite Hall in En; [discriminate|]. intros src Hsrc. destruct (isnil (pch s src r tag)) eqn:Ei; [reflexivity|].
+            exfalso. assert (Ht : existsb (fun src0 => negb (isnil (pch s src0 r tag))) (pranks P) = true) by (apply existsb_exists; exists src; rewrite Ei; auto). congruence. }
+        destruct Hex as [src [m [q Hc]]]. eexists. eapply stepp_hit; [exact Hp|apply nbx_poll_tag|exact Hc].
+      + right. right. destruct barr; cbn [prog_of] in Hp; eexists; [eapply stepp_test|eapply stepp_testall]; exact Hp.
+      + right. right. rewrite prog_ibar in Hp. eexists. eapply stepp_ibar. exact Hp.
+    - left. cbn [prog_of] in Hp. destruct (NK_ret r (rev acc)) as [o Ho]. rewrite Ho in Hp. eauto.
+    - exfalso. apply (proj1 (n_out s st I r) Est). exact Hrr.
+  Qed.
+  (* ---- NO ENDLESS POLLING: from every reachable state a final state is reachable (or the model's loop bound is hit) ------------------------
+     A potential Phi on the ghost states that some enabled step always decreases: a rank that still sends can send; else a rank that
+     has not yet received everything addressed to it finds a message at its next poll (all senders have sent); else all channels are
+     empty, every Testall says 1 and the ranks post the barrier; else every Test says 1 and the ranks return. *)
+  Definition T (r : Z) : list Z := transpose P R r.
+  Definition need (r : Z) (st : rstate) : nat := length (T r) - length (acc_of st).
+  Definition phi (r : Z) (st : rstate) : nat :=
+    match st with
+    | RSend j => 3 * (length (R r) - j) + 3 * length (T r) + 6
+    | RLoop f barr acc p =>
+      if (need r st =? 0)%nat then
+        match p, barr with AtPoll, false => 5 | AtCheck, false => 4 | AtIbar, _ => 3 | AtPoll, true => 2 | AtCheck, true => 1 end
+      else 3 * need r st + 6 + match p with AtPoll => 0 | AtCheck => 2 | AtIbar => 1 end
+    | RDone _ => 0
+    | ROut => 0
+    end%nat.
+  Definition Phi (st : Z -> rstate) : nat := list_sum (map (fun r => phi r (st r)) (ranks P)).
+
+  Lemma sum_upd_lt (g h : Z -> nat) : forall l r, NoDup l -> In r l -> (forall y, y <> r -> h y = g y) -> (h r < g r)%nat ->
+    (list_sum (map h l) < list_sum (map g l))%nat.
+  Proof.
+    induction l as [|x l IH]; intros r Hnd Hin Heq Hlt; [contradiction|]. inversion Hnd as [|? ? Hx Hnd']; subst. cbn [map list_sum fold_right].
+    change (fold_right Nat.add 0%nat (map h l)) with (list_sum (map h l)). change (fold_right Nat.add 0%nat (map g l)) with (list_sum (map g l)).
+    destruct Hin as [->|Hin].
+    - assert (E : map h l = map g l) by (apply map_ext_in; intros y Hy; apply Heq; intros ->; contradiction). rewrite E. lia.
+    - assert (x <> r) by (intros ->; contradiction). rewrite (Heq x H). specialize (IH r Hnd' Hin Heq Hlt). lia.
+  Qed.
+
+  Lemma Phi_upd st r new : 0 <= r < P -> (phi r new < phi r (st r))%nat -> (Phi (upds st r new) < Phi st)%nat.
+  Proof.
+    intros Hr Hlt. unfold Phi. apply (sum_upd_lt _ _ (ranks P) r (ranks_NoDup P) (proj2 (in_ranks P r) Hr)).
+    - intros y Hy. rewrite upds_other by exact Hy. reflexivity.
+    - rewrite upds_same. exact Hlt.
+  Qed.
+
+  Lemma find_rank (p : Z -> bool) : (exists r, 0 <= r < P /\ p r = true) \/ (forall r, 0 <= r < P -> p r = false).
+  Proof.
+    destruct (existsb p (ranks P)) eqn:E.
+    - left. apply existsb_exists in E. destruct E as [r [Hr Hp]]. apply in_ranks in Hr. eauto.
+    - right. intros r Hr. destruct (p r) eqn:Ep; [|reflexivity]. exfalso.
+      assert (existsb p (ranks P) = true) by (apply existsb_exists; exists r; split; [apply in_ranks; exact Hr|exact Ep]). congruence.
+  Qed.
+
+  Lemma pick_missing (A B : list Z) : NoDup A -> (length B < length A)%nat -> exists a, In a A /\ ~ In a B.
+  Proof.
+    intros Hnd Hlen. destruct (existsb (fun a => negb (memz a B)) A) eqn:E.
+    - apply existsb_exists in E. destruct E as [a [Ha Hn]]. exists a. split; [exact Ha|]. intros Hin. apply memz_In in Hin. rewrite Hin in Hn. discriminate.
+    - exfalso. assert (Hincl : incl A B).
+      { intros a Ha. destruct (memz a B) eqn:Em; [apply memz_In; exact Em|]. exfalso.
+        assert (existsb (fun a0 => negb (memz a0 B)) A = true) by (apply existsb_exists; exists a; rewrite Em; auto). congruence. }
+      pose proof (NoDup_incl_length Hnd Hincl). lia.
+  Qed.
+
+  (* what a rank has received was addressed to it *)
+  Lemma acc_incl s st b : NInv s st -> incl (map fst (acc_of (st b))) (T b).
+  Proof.
+    intros I a Ha. apply in_map_iff in Ha. destruct Ha as [[a' m] [E Hin]]. cbn [fst] in E. subst a'.
+    destruct (proj2 (n_acc s st I b) a m Hin) as [Hs _]. apply sentb_In in Hs. destruct Hs as [Hno Hin'].
+    apply transpose_In. split; [apply (in_range_of s st a I Hno)|exact Hin'].
+  Qed.
+
+  Lemma need0_all s st b : NInv s st -> need b (st b) = 0%nat -> incl (T b) (map fst (acc_of (st b))).
+  Proof.
+    intros I Hn. apply NoDup_length_incl; [apply (n_acc s st I b)| |apply (acc_incl s st b I)].
+    unfold need in Hn. rewrite map_length. lia.
+  Qed.
+
+  Lemma done_need0 s st r acc : NInv s st -> st r = RDone acc -> need r (st r) = 0%nat.
+  Proof.
+    intros I Est. unfold need. rewrite Est. cbn [acc_of].
+    assert (H : (length (T r) <= length (map fst acc))%nat) by (apply NoDup_incl_length; [apply transpose_NoDup|intros q Hq; apply (n_done s st I r acc Est q Hq)]).
+    rewrite map_length in H. lia.
+  Qed.
+
+  (* all messages sent and received: every channel is empty *)
+  Lemma all_empty s st : NInv s st -> (forall r, 0 <= r < P -> need r (st r) = 0%nat) -> forall a b t, pch s a b t = [].
+  Proof.
+    intros I Hn a b t. rewrite (n_ch s st I a b t). destruct (t =? tag); [|reflexivity]. cbn [andb].
+    destruct (sentb (st a) a b) eqn:Hs; [|reflexivity]. cbn [andb]. pose proof Hs as Hs'. apply sentb_In in Hs'. destruct Hs' as [Hno Hin].
+    pose proof (in_range_of s st a I Hno) as Ha. pose proof (proj2 (HR a Ha) b Hin) as Hb.
+    assert (Hrc : rcvdb (st b) a = true).
+    { apply rcvdb_In. apply (need0_all s st b I (Hn b Hb)). apply transpose_In. auto. }
+    rewrite Hrc. reflexivity.
+  Qed.
+
+  Definition is_send (st : rstate) : bool := match st with RSend _ => true | _ => false end.
+  Definition is_done (st : rstate) : bool := match st with RDone _ => true | _ => false end.
+
+  Lemma nbx_move s st : NInv s st ->
+    pfinal s \/ (exists r, 0 <= r < P /\ at_fuel_mark s r) \/
+    (exists r s' st', step_p P nbx_poll nbx_stags s r s' /\ NInv s' st' /\ (Phi st' < Phi st)%nat).
+  Proof.
+    intros I.
+    destruct (find_rank (fun r => is_send (st r))) as [[r [Hr Hp]]|Hnosend].
+    { (* 1. a rank that still sends *)
+      right. right. destruct (st r) as [j| | |] eqn:Est; try discriminate. pose proof (n_send s st I r j Est) as Hj.
+      pose proof (n_prog s st I r) as Hprog. rewrite Est in Hprog. cbn [prog_of] in Hprog.
+      assert (Hsk : skipn j (msgs r) = (nth j (R r) 0, tag, nitem r (nth j (R r) 0)) :: skipn (S j) (msgs r)).
+      { rewrite (skipn_nth (0, tag, nitem r 0)) by (unfold msgs; rewrite map_length; exact Hj). f_equal.
+        unfold msgs. rewrite (map_nth (fun d => (d, tag, nitem r d))). reflexivity. }
+      rewrite Hsk in Hprog. cbn [do_sends] in Hprog. unfold send in Hprog.
+      eexists r, _, _. split; [eapply stepp_send; exact Hprog|]. split; [exact (NInv_send s st r j I Est)|].
+      apply Phi_upd; [exact Hr|]. rewrite Est. unfold mkstate. destruct (Nat.ltb_spec (S j) (length (R r))); cbn [phi]; [lia|].
+      unfold need. cbn [acc_of length]. destruct (Nat.eqb_spec (length (T r) - 0) 0); lia. }
+    assert (Hsent : forall a b, 0 <= a < P -> In b (R a) -> sentb (st a) a b = true).
+    { intros a b Ha Hb. specialize (Hnosend a Ha). destruct (st a) as [j|f barr acc p|acc|] eqn:Est; cbn [is_send sentb] in *; try discriminate; try (apply memz_In; exact Hb).
+      exfalso. apply (proj1 (n_out s st I a) Est). exact Ha. }
+    destruct (find_rank (fun r => negb (need r (st r) =? 0)%nat)) as [[b [Hb Hp]]|Hnoneed].
+    { (* 2. a rank that has not yet received everything addressed to it *)
+      apply negb_true_iff, Nat.eqb_neq in Hp.
+      destruct (st b) as [j|f barr acc p|acc|] eqn:Est.
+      - specialize (Hnosend b Hb). rewrite Est in Hnosend. discriminate.
+      - pose proof (n_prog s st I b) as Hprog. rewrite Est in Hprog. destruct p.
+        + rewrite prog_poll in Hprog. destruct f as [|f]; [right; left; exists b; split; [exact Hb|eexists; exact Hprog]|]. right. right.
+          rewrite nbx_loop_S in Hprog.
+          destruct (pick_missing (T b) (map fst acc) (transpose_NoDup P R b)) as [a [Ha Hna]]; [unfold need in Hp; cbn [acc_of] in Hp; rewrite map_length; lia|].
+          apply transpose_In in Ha. destruct Ha as [Ha Hba].
+          assert (Hch : pch s a b tag = [nitem a b]).
+          { rewrite (n_ch s st I a b tag). unfold tag at 1. rewrite Z.eqb_refl, (Hsent a b Ha Hba). cbn [andb].
+            replace (rcvdb (st b) a) with false; [reflexivity|]. symmetry. destruct (rcvdb (st b) a) eqn:Erc; [|reflexivity].
+            apply rcvdb_In in Erc. rewrite Est in Erc. contradiction. }
+          destruct (NInv_hit s st b f barr acc a (nitem a b) [] I Est Hch) as [H0 [_ Hinv]].
+          eexists b, _, _. split; [eapply stepp_hit; [exact Hprog|apply nbx_poll_tag|exact Hch]|].
+          cbv zeta. cbn [hd tl]. replace (a <? 0) with false by lia. rewrite check_prog. split; [exact Hinv|].
+          apply Phi_upd; [exact Hb|]. rewrite Est. unfold need in *. cbn [phi acc_of length] in *. unfold need. cbn [acc_of length].
+          destruct (Nat.eqb_spec (length (T b) - length acc) 0); [lia|]. destruct (Nat.eqb_spec (length (T b) - S (length acc)) 0); [destruct barr; lia|lia].
+        + (* at the check: one (possibly idle) step brings it back to the poll *)
+          right. right. destruct barr; cbn [prog_of] in Hprog.
+          * destruct (allbar P (pbar s)) eqn:Eb.
+            -- eexists b, _, _. split; [eapply stepp_test; exact Hprog|]. rewrite Eb. cbn [flag hd Z.eqb]. split.
+               ++ apply (NInv_keep s st b (RDone acc)); try assumption; try reflexivity; try discriminate.
+                  ** rewrite Est. reflexivity.
+                  ** intros d. rewrite Est. reflexivity.
+                  ** intros y. rewrite (n_bar s st I y). unfold upds. destruct (Z.eqb_spec y b) as [Ey|Ey]; [subst y; rewrite Est; reflexivity|reflexivity].
+                  ** intros _. apply (n_cmp s st I b). rewrite Est. reflexivity.
+                  ** intros acc' Hacc q Hq. injection Hacc as <-. apply transpose_In in Hq. destruct Hq as [Hq Hrq].
+                     rewrite allbar_spec in Eb. pose proof (Eb q Hq) as Hbq. rewrite (n_bar s st I q) in Hbq.
+                     assert (Hcq : complete (st q) = true) by (destruct (st q) as [?|? [|] ? ?|?|]; try discriminate; reflexivity).
+                     pose proof (n_cmp s st I q Hcq b Hrq) as Hrc. apply rcvdb_In in Hrc. rewrite Est in Hrc. exact Hrc.
+               ++ apply Phi_upd; [exact Hb|]. rewrite Est. cbn [phi]. destruct (Nat.eqb_spec (need b (RLoop f true acc AtCheck)) 0); lia.
+            -- eexists b, _, _. split; [eapply stepp_test; exact Hprog|]. rewrite Eb. cbn [flag hd Z.eqb]. split.
+               ++ apply (NInv_keep s st b (RLoop f true acc AtPoll)); try assumption; try reflexivity; try discriminate.
+                  ** rewrite Est. reflexivity.
+                  ** intros d. rewrite Est. reflexivity.
+                  ** intros y. rewrite (n_bar s st I y). unfold upds. destruct (Z.eqb_spec y b) as [Ey|Ey]; [subst y; rewrite Est; reflexivity|reflexivity].
+                  ** intros _. apply (n_cmp s st I b). rewrite Est. reflexivity.
+               ++ apply Phi_upd; [exact Hb|]. rewrite Est. unfold need in *. cbn [phi acc_of] in *. unfold need. cbn [acc_of].
+                  destruct (Nat.eqb_spec (length (T b) - length acc) 0); lia.
+          * destruct (allsent P nbx_stags (pch s) b) eqn:Eb.
+            -- eexists b, _, _. split; [eapply stepp_testall; exact Hprog|]. rewrite Eb. cbn [flag hd Z.eqb]. split.
+               ++ apply (NInv_keep s st b (RLoop f false acc AtIbar)); try assumption; try reflexivity; try discriminate.
+                  ** rewrite Est. reflexivity.
+                  ** intros d. rewrite Est. reflexivity.
+                  ** intros y. rewrite (n_bar s st I y). unfold upds. destruct (Z.eqb_spec y b) as [Ey|Ey]; [subst y; rewrite Est; reflexivity|reflexivity].
+                  ** intros _ d Hd. rewrite allsent_spec in Eb. specialize (Eb d tag (proj2 (HR b Hb) d Hd) (or_introl eq_refl)).
+                     rewrite (n_ch s st I b d tag) in Eb. unfold tag in Eb at 1. rewrite Z.eqb_refl, Est in Eb. cbn [sentb andb] in Eb.
+                     rewrite (proj2 (memz_In d (R b)) Hd) in Eb. cbn [andb] in Eb. destruct (rcvdb (st d) b); [reflexivity|discriminate].
+               ++ apply Phi_upd; [exact Hb|]. rewrite Est. unfold need in *. cbn [phi acc_of] in *. unfold need. cbn [acc_of].
+                  destruct (Nat.eqb_spec (length (T b) - length acc) 0); lia.
+            -- eexists b, _, _. split; [eapply stepp_testall; exact Hprog|]. rewrite Eb. cbn [flag hd Z.eqb]. split.
+               ++ apply (NInv_keep s st b (RLoop f false acc AtPoll)); try assumption; try reflexivity; try discriminate.
+                  ** rewrite Est. reflexivity.
+                  ** intros d. rewrite Est. reflexivity.
+                  ** intros y. rewrite (n_bar s st I y). unfold upds. destruct (Z.eqb_spec y b) as [Ey|Ey]; [subst y; rewrite Est; reflexivity|reflexivity].
+               ++ apply Phi_upd; [exact Hb|]. rewrite Est. unfold need in *. cbn [phi acc_of] in *. unfold need. cbn [acc_of].
+                  destruct (Nat.eqb_spec (length (T b) - length acc) 0); lia.
+        + right. right. rewrite prog_ibar in Hprog.
+          assert (Hc0 : complete (st b) = true) by (rewrite Est; destruct barr; reflexivity).
+          eexists b, _, _. split; [eapply stepp_ibar; exact Hprog|]. split.
+          * apply (NInv_keep s st b (RLoop f true acc AtPoll)); try assumption; try reflexivity; try discriminate.
+            -- rewrite Est. reflexivity.
+            -- intros d. rewrite Est. reflexivity.
+            -- intros y. unfold updb, upds. destruct (Z.eqb_spec y b) as [Ey|Ey]; [reflexivity|apply (n_bar s st I y)].
+            -- intros _. apply (n_cmp s st I b Hc0).
+          * apply Phi_upd; [exact Hb|]. rewrite Est. unfold need in *. cbn [phi acc_of] in *. unfold need. cbn [acc_of].
+            destruct (Nat.eqb_spec (length (T b) - length acc) 0); lia.
+      - exfalso. apply Hp. rewrite <- Est. apply (done_need0 s st b acc I Est).
+      - exfalso. apply (proj1 (n_out s st I b) Est). exact Hb. }
+    assert (Hneed0 : forall r, 0 <= r < P -> need r (st r) = 0%nat).
+    { intros r Hr. specialize (Hnoneed r Hr). apply negb_false_iff, Nat.eqb_eq in Hnoneed. exact Hnoneed. }
+    pose proof (all_empty s st I Hneed0) as Hempty.
+    assert (Hnothing : forall r, nothing P (pch s) r tag = true) by (intros r; apply nothing_spec; intros src _; apply Hempty).
+    destruct (find_rank (fun r => negb (is_done (st r)))) as [[r [Hr Hp]]|Hall].
+    2:{ (* every rank has returned *)
+        left. intros r. rewrite (n_prog s st I r). destruct (Z_le_dec 0 r) as [H0|H0]; [destruct (Z_lt_dec r P) as [H1|H1]|].
+        - specialize (Hall r (conj H0 H1)). destruct (st r) as [?|? ? ? ?|acc|]; try discriminate. cbn [prog_of]. apply NK_ret.
+        - rewrite (proj2 (n_out s st I r)) by lia. cbn [prog_of]. eauto.
+        - rewrite (proj2 (n_out s st I r)) by lia. cbn [prog_of]. eauto. }
+    (* 3. / 4. all channels are empty: pick, if there is one, a rank that has not posted the barrier, else any rank that has not returned *)
+    assert (Hpick : exists r0, 0 <= r0 < P /\ is_done (st r0) = false /\ (barred (st r0) = true -> forall q, 0 <= q < P -> barred (st q) = true)).
+    { destruct (find_rank (fun q => negb (barred (st q)))) as [[q [Hq Hpq]]|Hallbar].
+      - exists q. split; [exact Hq|]. apply negb_true_iff in Hpq. split; [destruct (st q) as [?|? [|] ? ?|?|]; try discriminate; reflexivity|]. intros E. congruence.
+      - exists r. split; [exact Hr|]. split; [apply negb_true_iff; exact Hp|]. intros _ q Hq. specialize (Hallbar q Hq). apply negb_false_iff. exact Hallbar. }
+    clear r Hr Hp. destruct Hpick as [r [Hr [Hnd Hbar]]].
+    destruct (st r) as [j|f barr acc p|acc|] eqn:Est.
+    - specialize (Hnosend r Hr). rewrite Est in Hnosend. discriminate.
+    - pose proof (n_prog s st I r) as Hprog. rewrite Est in Hprog. pose proof (Hneed0 r Hr) as Hn0. rewrite Est in Hn0.
+      destruct p.
+      + rewrite prog_poll in Hprog. destruct f as [|f]; [right; left; exists r; split; [exact Hr|eexists; exact Hprog]|]. right. right.
+        rewrite nbx_loop_S in Hprog.
+        eexists r, _, _. split; [eapply stepp_miss; [exact Hprog|apply nbx_poll_tag|apply Hnothing]|].
+        cbv zeta. cbn [hd]. change (-1 <? 0) with true. cbv iota. rewrite check_prog. split.
+        * apply (NInv_keep s st r (RLoop f barr acc AtCheck)); try assumption; try reflexivity; try discriminate.
+          -- rewrite Est. reflexivity.
+          -- intros d. rewrite Est. reflexivity.
+          -- intros y. rewrite (n_bar s st I y). unfold upds. destruct (Z.eqb_spec y r) as [Ey|Ey]; [subst y; rewrite Est; destruct barr; reflexivity|reflexivity].
+          -- intros Hc. apply (n_cmp s st I r). rewrite Est. destruct barr; [reflexivity|discriminate].
+        * apply Phi_upd; [exact Hr|]. rewrite Est. unfold need in *. cbn [phi acc_of] in *. unfold need. cbn [acc_of]. rewrite Hn0. cbn [Nat.eqb]. destruct barr; lia.
+      + right. right. destruct barr; cbn [prog_of] in Hprog.
+        * (* every rank has posted the barrier: Test says 1 *)
+          assert (Eb : allbar P (pbar s) = true).
+          { apply allbar_spec. intros q Hq. rewrite (n_bar s st I q). apply Hbar; [reflexivity|exact Hq]. }
+          eexists r, _, _. split; [eapply stepp_test; exact Hprog|]. rewrite Eb. cbn [flag hd Z.eqb]. split.
+          -- apply (NInv_keep s st r (RDone acc)); try assumption; try reflexivity; try discriminate.
+             ++ rewrite Est. reflexivity.
+             ++ intros d. rewrite Est. reflexivity.
+             ++ intros y. rewrite (n_bar s st I y). unfold upds. destruct (Z.eqb_spec y r) as [Ey|Ey]; [subst y; rewrite Est; reflexivity|reflexivity].
+             ++ intros _. apply (n_cmp s st I r). rewrite Est. reflexivity.
+             ++ intros acc' Hacc q Hq. injection Hacc as <-. pose proof (need0_all s st r I (Hneed0 r Hr) q Hq) as Hin. rewrite Est in Hin. exact Hin.
+          -- apply Phi_upd; [exact Hr|]. rewrite Est. cbn [phi]. rewrite Hn0. cbn [Nat.eqb]. lia.
+        * (* all channels are empty: Testall says 1 *)
+          assert (Eb : allsent P nbx_stags (pch s) r = true) by (apply allsent_spec; intros d t _ _; apply Hempty).
+          eexists r, _, _. split; [eapply stepp_testall; exact Hprog|]. rewrite Eb. cbn [flag hd Z.eqb]. split.
+          -- apply (NInv_keep s st r (RLoop f false acc AtIbar)); try assumption; try reflexivity; try discriminate.
+             ++ rewrite Est. reflexivity.
+             ++ intros d. rewrite Est. reflexivity.
+             ++ intros y. rewrite (n_bar s st I y). unfold upds. destruct (Z.eqb_spec y r) as [Ey|Ey]; [subst y; rewrite Est; reflexivity|reflexivity].
+             ++ intros _ d Hd. pose proof (Hempty r d tag) as Hc. rewrite (n_ch s st I r d tag) in Hc. unfold tag in Hc at 1.
+                rewrite Z.eqb_refl, (Hsent r d Hr Hd) in Hc. cbn [andb] in Hc. destruct (rcvdb (st d) r); [reflexivity|discriminate].
+          -- apply Phi_upd; [exact Hr|]. rewrite Est. unfold need in *. cbn [phi acc_of] in *. unfold need. cbn [acc_of]. rewrite Hn0. cbn [Nat.eqb]. lia.
+      + right. right. rewrite prog_ibar in Hprog.
+        assert (Hc0 : complete (st r) = true) by (rewrite Est; destruct barr; reflexivity).
+        eexists r, _, _. split; [eapply stepp_ibar; exact Hprog|]. split.
+        * apply (NInv_keep s st r (RLoop f true acc AtPoll)); try assumption; try reflexivity; try discriminate.
+          -- rewrite Est. reflexivity.
+          -- intros d. rewrite Est. reflexivity.
+          -- intros y. unfold updb, upds. destruct (Z.eqb_spec y r) as [Ey|Ey]; [reflexivity|apply (n_bar s st I y)].
+          -- intros _. apply (n_cmp s st I r Hc0).
+        * apply Phi_upd; [exact Hr|]. rewrite Est. unfold need in *. cbn [phi acc_of] in *. unfold need. cbn [acc_of]. rewrite Hn0. cbn [Nat.eqb]. destruct barr; lia.
+    - discriminate.
+    - exfalso. apply (proj1 (n_out s st I r) Est). exact Hr.
+  Qed.
+
+  Theorem nbx_reach_final : forall k s st, NInv s st -> Phi st = k ->
+    exists m s', run_p P nbx_poll nbx_stags m s s' /\ (m <= k)%nat /\ (pfinal s' \/ exists r, 0 <= r < P /\ at_fuel_mark s' r).
+  Proof.
+    induction k as [k IH] using lt_wf_ind. intros s st I Hk.
+    destruct (nbx_move s st I) as [Hf|[Hm|[r [s1 [st1 [Hs [I1 Hlt]]]]]]].
+    - exists 0%nat, s. split; [constructor|]. split; [lia|left; exact Hf].
+    - exists 0%nat, s. split; [constructor|]. split; [lia|right; exact Hm].
+    - destruct (IH (Phi st1) ltac:(lia) s1 st1 I1 eq_refl) as [m [s' [Hr [Hle Hend]]]].
+      exists (S m), s'. split; [econstructor; eassumption|]. split; [lia|exact Hend].
+  Qed.
+
+  (* NO ENDLESS POLLING: every run can be continued - by at most Phi st0 <= 9 P (P + 1) further steps - to a final state, unless a rank
+     hits the model's loop bound on the way *)
+  Theorem nbx_no_endless_polling n s : run_p P nbx_poll nbx_stags n nbx_sys s ->
+    exists m s', run_p P nbx_poll nbx_stags m s s' /\ (pfinal s' \/ exists r, 0 <= r < P /\ at_fuel_mark s' r).
+  Proof.
+    intros Hr. destruct (nbx_safety n s Hr) as [st I]. destruct (nbx_reach_final (Phi st) s st I eq_refl) as [m [s' [H1 [_ H2]]]]. eauto.
+  Qed.
 End NbxSched.
